@@ -90,7 +90,8 @@ fn main() {
         eprintln!("usage: cwsim check|replay|hashes ...");
         std::process::exit(2);
     }
-    let code = match args[1].as_str() {
+    // a panic outside any simulated contract frame is a defect of the harness, never a verdict: exit 2
+    let code = std::panic::catch_unwind(|| match args[1].as_str() {
         "check" => cmd_check(&args),
         "replay" => cmd_replay(&args),
         "hashes" => cmd_hashes(&args),
@@ -98,7 +99,11 @@ fn main() {
             eprintln!("unknown command");
             2
         }
-    };
+    })
+    .unwrap_or_else(|_| {
+        eprintln!("harness error: the simulator itself panicked (re-run with CWSIM_DEBUG=1 for the location)");
+        2
+    });
     std::process::exit(code);
 }
 
